@@ -291,7 +291,7 @@ Proof.
         apply int_range_ok in H as [-> Hr]; eauto.
   - destruct j; try discriminate.
     + destruct (float_int_ok z); inversion H; eauto.
-    + inversion H; eauto.
+    + destruct (dec_of_text r); inversion H; eauto.
     + destruct (dec_of_text s); inversion H; eauto.
   - destruct j; try discriminate; inversion H; eauto.
   - destruct j; try discriminate; inversion H; eauto.
@@ -971,7 +971,7 @@ Proof.
     unfold int_range, int_rangeI. rewrite e1. auto.
   - (* Float *)
     exists (PFloat r). rewrite cv_named_eq by discriminate. rewrite vfa_named_eq by reflexivity.
-    unfold cv_named, vfa_named. rewrite e. simpl. rewrite e0, e1. auto.
+    unfold cv_named, vfa_named. rewrite e. simpl. rewrite e0, e1, e2. auto.
   - (* Float from an integer *)
     exists (PFloat (float_text (dec_of_Z z))).
     rewrite cv_named_eq by discriminate. rewrite vfa_named_eq by reflexivity.
